@@ -71,6 +71,30 @@ CHECKS = {
              'contain no NUL or double quote. Path-taking decoders and their arity are discovered by observation.',
         technique='boundary-complete text workload in kernel chunking + offline checker over the recorded trace '
                   'history (exactly-once, exact text, no-continuation-trace, table state)'),
+    'C04': dict(
+        category='exploration', design_ref='DESIGN.md section 4, C04',
+        text='Runtime monitoring with an offline history checker: every call of the real TracesParser.feed is recorded '
+             'at the client boundary (event, returned trace, state snapshots around ENDs); the checker derives from '
+             'the history alone which window each END must deliver (optional stray ENDs accepted either way), that '
+             'stray ENDs change nothing and that singles yield single-event traces; an icontract class invariant '
+             'asserts the structural window invariant on the live tables after every public call. Exhaustive small '
+             'scope (all histories up to length 4/5 over 2 threads x 2 codes x 4 qualifiers, several code pairs) plus '
+             'stratified random histories with real decoders.',
+        note='Trusted: the 15-line history model in props/c04.py, the list of the ten trace-domain names, in-domain '
+             'words (vlib/domain.py). Situation classes are counted; a class never observed makes the run inconclusive.',
+        technique='feed recorder + offline trace-specification checker over recorded histories + icontract class '
+                  'invariant; exhaustive small scope and stratified random histories'),
+    'C05': dict(
+        category='exploration', design_ref='DESIGN.md section 4, C05',
+        text='Schedules are input interleavings (the merge order of per-CPU buffers), so they are driven '
+             'deterministically: every order-preserving interleaving of small per-thread program sets (<= 3000), '
+             'adversarial lock-step merges that split every DATA/STRING pair, and random merges of larger sets. The '
+             'traces the real parser emits per thread (type, text, event list) and the process names it learns are '
+             'compared with the baseline of each program run alone.',
+        note='Keys of the tables that are shared by design (string ids, pids, argument tids) are disjoint across '
+             'threads - the statement\'s carve-out made concrete. Trusted: vlib/histories.py templates.',
+        technique='deterministic enumeration of interleavings + per-thread differential oracle against single-thread '
+                  'baselines recorded at the feed boundary'),
 }
 
 PENDING_REASON = 'check not yet built in this session (design in DESIGN.md section 4); not claimed until it exists'
